@@ -43,11 +43,15 @@ type params struct {
 	steer  int // 0 none, 1 real side draws minimum padding, 2 maximum
 	refPad int // -1 PRNG, else exact
 	chunk  int // chunk policy index for what the REAL side reads
-	seed   uint64
+	// rollover: the handshake starts 10 ms before the top of the hour and the
+	// message of the side that speaks is delivered only after it (the epoch
+	// hour changes while the handshake is in flight)
+	rollover bool
+	seed     uint64
 }
 
 func (p params) String() string {
-	return fmt.Sprintf("role=%s legacy=%v iat=%d biased=%v steer=%d refpad=%d chunk=%d seed=%x", p.role, p.legacy, p.iat, p.biased, p.steer, p.refPad, p.chunk, p.seed)
+	return fmt.Sprintf("role=%s legacy=%v iat=%d biased=%v steer=%d refpad=%d chunk=%d rollover=%v seed=%x", p.role, p.legacy, p.iat, p.biased, p.steer, p.refPad, p.chunk, p.rollover, p.seed)
 }
 
 var chunkNames = []string{"all", "1", "31", "33", "1447", "prng"}
@@ -123,6 +127,22 @@ func runConn(c *mon.Case, r *mon.Run, dir string, p params) {
 	wantReal, wantRef := total(realScript), total(refScript)
 	viol := func(sig, format string, a ...any) {
 		c.Violation(sig, fmt.Sprintf(format, a...)+"; "+p.String(), p.String())
+	}
+	if p.rollover {
+		now := time.Now()
+		time.Sleep(time.Until(now.Truncate(time.Hour).Add(time.Hour - 10*time.Millisecond)))
+	}
+	// cross is called once both sides are at rest with the first message held
+	// back on the wire: it lets the top of the hour pass
+	cross := func(before string) bool {
+		synctest.Wait()
+		time.Sleep(50 * time.Millisecond)
+		if o4.Hours(0) == before {
+			viol("harness/no-hour-rollover", "the epoch hour did not change")
+			return false
+		}
+		r.Count("handshakes_across_hour_rollover_"+p.role, 1)
+		return true
 	}
 
 	// the real endpoint's application: writes realScript, reads wantRef bytes
@@ -249,8 +269,25 @@ func runConn(c *mon.Case, r *mon.Run, dir string, p params) {
 		// adjacent one (accepted window); it verifies the response under the
 		// hour it used itself
 		hoff := int(p.seed>>9%3) - 1
+		if p.rollover {
+			hoff = int(p.seed >> 9 % 2) // stamped with its current or next hour; the server sees it one hour later
+		}
 		r.Count(fmt.Sprintf("refclient_hour_offset_%+d", hoff), 1)
-		rc, hello, sr, err := o4.RefDial(cw, b.Ref, rng, p.refPad, o4.Hours(int64(hoff)))
+		var rc *o4.RefConn
+		var hello *ref.ClientHello
+		var sr *ref.ServerResponse
+		if p.rollover {
+			before := o4.Hours(0)
+			stamp := o4.Hours(int64(hoff))
+			c2s.Pause(true)
+			dd := make(chan struct{})
+			c.Go(func() { close(dd) }, func() { rc, hello, sr, err = o4.RefDial(cw, b.Ref, rng, p.refPad, stamp) })
+			cross(before)
+			c2s.Pause(false)
+			<-dd
+		} else {
+			rc, hello, sr, err = o4.RefDial(cw, b.Ref, rng, p.refPad, o4.Hours(int64(hoff)))
+		}
 		<-done
 		restore()
 		_ = hello
@@ -297,7 +334,20 @@ func runConn(c *mon.Case, r *mon.Run, dir string, p params) {
 		if p.legacy {
 			args = b.ClientArgsLegacy()
 		}
-		cc, err := dial(cw, args)
+		hourAtDial := o4.Hours(0)
+		var cc net.Conn
+		var err error
+		if p.rollover {
+			// the server's response reaches the client only after the top of the hour
+			s2c.Pause(true)
+			dd := make(chan struct{})
+			c.Go(func() { close(dd) }, func() { cc, err = dial(cw, args) })
+			cross(hourAtDial)
+			s2c.Pause(false)
+			<-dd
+		} else {
+			cc, err = dial(cw, args)
+		}
 		<-done
 		restore()
 		if err != nil || serr != nil {
@@ -312,8 +362,8 @@ func runConn(c *mon.Case, r *mon.Run, dir string, p params) {
 		if len(blob) < ref.ClientMinHandshake+ref.ClientMinPad || len(blob) > ref.MaxHandshakeLength {
 			viol("format/client-hello-length", "client hello of %d bytes outside [141,8192]", len(blob))
 		}
-		if ph.Hour != o4.Hours(0) {
-			viol("format/client-hour", "client MAC uses hour %s, clock says %s", ph.Hour, o4.Hours(0))
+		if ph.Hour != hourAtDial {
+			viol("format/client-hour", "client MAC uses hour %s, clock said %s", ph.Hour, hourAtDial)
 		}
 		r.Max("client_pad_max", int64(ph.PadLen))
 		r.Min("client_pad_min", int64(ph.PadLen))
@@ -422,7 +472,7 @@ func TestCheck(t *testing.T) {
 	r := mon.Start(t, "C06")
 	defer r.Finish()
 	_ = rand.Reader
-	r.Note("rule", "every connection has the independent reference implementation on one side: grid of role (reference client vs real server / real client vs reference server) x bridge-line form (cert / legacy node-id+public-key) x IAT mode x table bias x chunking of what the real side reads x reference-client clock in the hour before / the same / the hour after the server's x padding choice (PRNG, reference at both extremes, real side steered to its minimum and maximum), fresh identity and seed per connection, PRNG payload scripts both ways with reference frames of varied payload/padding split; plus known-answer comparison of ntor.Kdf, the DRBG and framing with the reference on random inputs. Non-trivial = handshake completed and all payload verified in both directions; distinct = distinct parameter tuple.")
+	r.Note("rule", "every connection has the independent reference implementation on one side: grid of role (reference client vs real server / real client vs reference server) x bridge-line form (cert / legacy node-id+public-key) x IAT mode x table bias x chunking of what the real side reads x reference-client clock in the hour before / the same / the hour after the server's x handshakes during which the epoch hour changes (the first message is held on the wire across the top of the hour, both roles) x padding choice (PRNG, reference at both extremes, real side steered to its minimum and maximum), fresh identity and seed per connection, PRNG payload scripts both ways with reference frames of varied payload/padding split; plus known-answer comparison of ntor.Kdf, the DRBG and framing with the reference on random inputs. Non-trivial = handshake completed and all payload verified in both directions; distinct = distinct parameter tuple.")
 	dir := o4.StateDir("c06")
 	nPer := r.Pick(2, 16)
 	for _, role := range []string{"refclient", "refserver"} {
@@ -461,6 +511,23 @@ func TestCheck(t *testing.T) {
 				}
 			}
 		}
+	}
+	// the epoch hour changes while the handshake is in flight
+	for _, role := range []string{"refclient", "refserver"} {
+		role := role
+		r.Case("rollover/"+role, func(c *mon.Case) {
+			for k := 0; k < r.Pick(12, 96); k++ {
+				p := params{role: role, legacy: k%4 == 3 && role == "refserver", iat: k % 3, biased: k%2 == 1, refPad: -1, chunk: k % len(chunkNames), rollover: true, seed: r.Sub("rollover", role, k)}
+				func() {
+					defer func() {
+						if e := recover(); e != nil {
+							c.Violation("wedge-or-panic", fmt.Sprintf("%v; %s", e, p), p.String())
+						}
+					}()
+					synctest.Test(c.T, func(t *testing.T) { runConn(c, r, dir, p) })
+				}()
+			}
+		})
 	}
 	for i := 0; i < 16; i++ {
 		i := i
